@@ -745,7 +745,11 @@ type gatedMB struct {
 func (g *gatedMB) GetParams() *filtermaps.Params { return g.inner.GetParams() }
 func (g *gatedMB) GetBlockLvPointer(ctx context.Context, n uint64) (uint64, error) {
 	g.w.sched.Gate(fmt.Sprintf("q%d:lvptr:%d", g.q, n))
-	return g.inner.GetBlockLvPointer(ctx, n)
+	p, err := g.inner.GetBlockLvPointer(ctx, n)
+	if trace {
+		fmt.Printf("LVPTR q%d block %d -> %d %v\n", g.q, n, p, err)
+	}
+	return p, err
 }
 func (g *gatedMB) GetFilterMapRows(ctx context.Context, mapIndices []uint32, rowIndex uint32, baseLayerOnly bool) ([]filtermaps.FilterRow, error) {
 	first, last := uint32(0), uint32(0)
@@ -762,6 +766,9 @@ func (g *gatedMB) GetLogByLvIndex(ctx context.Context, lv uint64) (*types.Log, e
 func (g *gatedMB) SyncLogIndex(ctx context.Context) (filtermaps.SyncRange, error) {
 	g.w.sched.Gate(fmt.Sprintf("q%d:sync:%d", g.q, g.syncs))
 	sr, err := g.inner.SyncLogIndex(ctx)
+	if trace {
+		fmt.Printf("SYNC q%d #%d indexed=%v valid=%v err=%v range=%+v\n", g.q, g.syncs, sr.IndexedBlocks, sr.ValidBlocks, err, g.w.fm.VerifIndexedRange())
+	}
 	if err == nil {
 		w := g.w
 		w.mu.Lock()
@@ -831,6 +838,15 @@ func (w *world) startFM(view *filtermaps.ChainView) {
 		simcore.Harnessf("NewFilterMaps: %v", err)
 	}
 	w.fm = fm
+	if trace {
+		w.indexKV.Hook = func(op *simdisk.KVOp) {
+			k := op.Key
+			if op.Kind == simdisk.OpBatch && len(op.Batch) > 0 {
+				k = op.Batch[0].Key
+			}
+			fmt.Printf("KVW kind=%d key=%x n=%d range=%+v\n", op.Kind, k, len(op.Batch), fm.VerifIndexedRangeUnlocked())
+		}
+	}
 	fm.Start()
 }
 
@@ -865,8 +881,9 @@ func (w *world) disabledViolation(where string) {
 	w.mu.Unlock()
 	v := simcore.Violf("indexer-disabled", "%s: the indexer switched itself off on a healthy disk and chain; error log: %s", where, msgs)
 	v.Key = "indexer-disabled:" + classify(msgs)
-	if strings.Contains(msgs, "tail rendering failed") && strings.Contains(msgs, "failed to create log iterator from block delimiter") && strings.Contains(msgs, "unindexed range") {
-		v.Key = "indexer-disabled:tail-render-from-unindexed-snapshot"
+	if strings.Contains(msgs, "failed to create log iterator from block delimiter") && strings.Contains(msgs, "unindexed range") {
+		// renderMapsBefore picked a cached render snapshot whose block lies below the indexed range
+		v.Key = "indexer-disabled:render-from-unindexed-snapshot"
 	}
 	if simcore.IsKnown(v.Key) {
 		// recorded finding: the indexer is dead for the rest of this run; stop quietly
@@ -1046,6 +1063,22 @@ func (w *world) runQuery(qid int, spec QuerySpec, phase string) {
 	if err != nil {
 		v := simcore.Violf("query-error", "%s returned error %q instead of %d logs", ctxs, err.Error(), len(want))
 		v.Key = "query-error:" + classify(err.Error())
+		// one recognised class: a block's log value pointer vanished under the query because
+		// the tail epoch holding it was unindexed between SyncLogIndex and the lookup
+		if i := strings.LastIndex(err.Error(), "failed to retrieve log value pointer of block "); i >= 0 && strings.HasSuffix(err.Error(), "not found") {
+			var n uint64
+			fmt.Sscanf(err.Error()[i:], "failed to retrieve log value pointer of block %d", &n)
+			if r := w.fm.VerifIndexedRange(); r.Initialized && n < r.BlocksFirst {
+				v.Key = "query-error:lv-pointer-deleted-by-tail-unindex"
+				v.Msg += fmt.Sprintf(" (block %d is below the indexed range %d..%d now: its pointer was deleted by tail unindexing while the query ran)", n, r.BlocksFirst, r.BlocksAfterLast)
+			}
+		}
+		if simcore.IsKnown(v.Key) {
+			w.mu.Lock()
+			w.res.KnownHit(v.Key)
+			w.mu.Unlock()
+			return
+		}
 		w.fail(v)
 		return
 	}
@@ -1077,7 +1110,23 @@ func (w *world) runQuery(qid int, spec QuerySpec, phase string) {
 	}
 	for _, l := range want {
 		if !seen[logKey(l)] {
-			w.fail(simcore.Violf("logs-missing", "%s: canonical matching log %s is missing from the result (%d returned, %d expected)", ctxs, descLog(l), len(got), len(want)))
+			v := simcore.Violf("logs-missing", "%s: canonical matching log %s is missing from the result (%d returned, %d expected)", ctxs, descLog(l), len(got), len(want))
+			// one recognised class: the index claims its first block as fully indexed although
+			// that block starts in a map of an unindexed (deleted) epoch
+			if r := w.fm.VerifIndexedRange(); r.Initialized && l.BlockNumber == r.BlocksFirst && r.BlocksAfterLast > r.BlocksFirst {
+				if ptr, err := rawdb.ReadBlockLvPointer(w.indexKV, l.BlockNumber); err == nil && uint32(ptr>>w.p.LogValuesPerMap) < r.MapsFirst {
+					v.Key = "logs-missing:first-indexed-block-starts-in-unindexed-map"
+					v.Msg += fmt.Sprintf(" (indexed range: blocks %d..%d, maps %d..%d; block %d starts at log value %d = map %d, which is unindexed)",
+						r.BlocksFirst, r.BlocksAfterLast-1, r.MapsFirst, r.MapsAfterLast-1, l.BlockNumber, ptr, ptr>>w.p.LogValuesPerMap)
+				}
+			}
+			if simcore.IsKnown(v.Key) {
+				w.mu.Lock()
+				w.res.KnownHit(v.Key)
+				w.mu.Unlock()
+				return
+			}
+			w.fail(v)
 			return
 		}
 	}
